@@ -1,7 +1,7 @@
 (* Props/C03.v — back-pressure releases: no lost wake-up.
    ONLY statements, each closed by `exact <lemma>`, with Print Assumptions. *)
 From Coq Require Import List ZArith NArith Bool.
-From AN Require Import Model.Srv Proofs.SrvInv Proofs.SrvTheorems.
+From AN Require Import Model.Srv Proofs.SrvInv Proofs.SrvTheorems Proofs.SrvFault Proofs.SrvPauseB Proofs.SrvStrand.
 Import ListNotations.
 
 (* In every state reachable by a fault-free script, for every limit L >= 1 (including 1):
@@ -34,4 +34,52 @@ Example C03_example :
   (map (fun w => map c_id (w_queue w)) (ws st2)) = [[2%N]].
 Proof. vm_compute. split; reflexivity. Qed.
 
+(* "... a connection waiting on any listener is eventually dispatched", for EVERY script — worker deaths and replacements
+   at any point, anything scheduled inside the send/inc gap, commands, injected errors (only a spurious WouldBlock from
+   accept() with clients queued is excluded: nwb_op): in every reachable state the loop has not failed, a non-empty waker
+   queue has its waker edge pending (so the blocking poll returns), and whenever the loop runs, is not paused and some worker
+   is flagged available, every listener with a non-empty backlog is registered with an unreported readiness edge (the next
+   poll reports it) or in back-off with the poll timeout armed (<= 510 ms, deadline <= 500 ms away). *)
+Theorem C03_no_strand_all : forall (L : Z) W kinds os,
+  1 <= W <= 512 -> forallb wf_op os = true -> forallb (tok_ok (length kinds)) os = true -> forallb nwb_op os = true ->
+  let st := run L (init W kinds) os in
+  err st = None /\
+  (stopped st = false ->
+   (wq st <> [] -> wpend st = true) /\
+   forall tok l, nth_error (lsts st) tok = Some l ->
+     paused st = false -> available (av st) = true -> l_backlog l <> [] -> l_inject l = [] ->
+       (l_reg l = true /\ l_edge l = true) \/
+       (exists d t, l_to l = Some d /\ (d <= now st + 500)%N /\ ptimeout st = Some t /\ (t <= 510)%N)).
+Proof. exact no_strand_all. Qed.
+
+(* "... a saturated worker receives connections again as soon as one of its connections finishes": from ANY reachable state
+   (faults included) whose waker queue holds a release notice (or a replacement handle, or any command but an unmatched
+   Resume), one handle_waker call with nothing else running in between ends with the queue drained (or the loop stopped)
+   and, unless it is stopped/paused, with no worker flagged available any more — all saturated — or with EVERY listener's
+   backlog empty (listeners in back-off or with an injected error pending excepted). *)
+Theorem C03_release_drains : forall (L : Z) W kinds os,
+  forallb nwb_op os = true ->
+  let st := run L (init W kinds) os in
+  live st = true -> existsb settles (wq st) = true ->
+  let st' := step L st (HandleWaker []) in
+  err st' = None ->
+  (stopped st' = true \/ wq st' = []) /\
+  (stopped st' = false -> paused st' = false -> available (av st') = true ->
+   forall tok l, nth_error (lsts st') tok = Some l -> l_backlog l = [] \/ l_inject l <> [] \/ l_to l <> None).
+Proof. exact notice_drains. Qed.
+
+(* non-vacuity of C03_release_drains, limit 1, one worker, three clients: the first is in progress, two wait in the
+   backlog; its completion queues the notice; handle_waker dispatches client 2 (the worker is saturated again: client 3
+   stays, no worker is flagged) *)
+Example C03_release_example :
+  let os := [E (Connect 0 1); E (Connect 0 2); E (Connect 0 3); Turn []; E (Pick 0); E (Finish 0 1)] in
+  let st := run 1 (init 1 [false]) os in
+  let st' := step 1 st (HandleWaker []) in
+  forallb nwb_op os = true /\ live st = true /\ existsb settles (wq st) = true /\ err st' = None /\
+  (map (fun w => map c_id (w_queue w)) (ws st'), map l_backlog (lsts st'), available (av st'), wq st') =
+  ([[2%N]], [[3%N]], false, []).
+Proof. vm_compute. repeat split; reflexivity. Qed.
+
 Print Assumptions C03_no_lost_wakeup.
+Print Assumptions C03_no_strand_all.
+Print Assumptions C03_release_drains.
